@@ -91,9 +91,12 @@ POOL = [
     {"text": "tomorrow 5pm", "ts": TS1, "kw": {"scorer": "nb2"}},
     {"text": "9-5", "ts": TS1, "kw": {"scorer": "nb2"}},
     {"text": "monday 5pm", "ts": TS1, "kw": {"scorer": "nb2"}},
+    # a word whose production takes no argument from the text (a value hoisted to module level would be shared by every call and every open stream)
+    {"text": "midnight", "ts": TS1, "kw": {"latent_time": False}},
+    {"text": "zz midnight", "ts": TS1, "kw": {"latent_time": False}},
 ]
 TS_COMPONENT = [23, 24, 25]
-SHIFT_PAIRS = [(13, 14), (15, 16), (17, 18), (19, 20), (21, 22)]
+SHIFT_PAIRS = [(13, 14), (15, 16), (17, 18), (19, 20), (21, 22), (41, 42)]
 FAIL = 7
 CALLABLE = list(range(13)) + [13, 14, 23, 24, 25, 27, 28, 29, 30, 31, 32, 33, 34, 35, 36, 37, 38, 39, 40]  # history alphabet (the offset-shift pairs beyond #14 are exercised by the stream merges)
 OPENABLE = [0, 3, 5, 9, 10, 13, 38]
